@@ -105,6 +105,7 @@ func c07Optimize(w *mon.W, id string, tbl codon.Table, snap plainTable, tdesc, p
 	var dna string
 	var err error
 	p := mon.Try(func() { dna, err = codon.Optimize(protein, tbl) })
+	retainCheck(w, id, "Optimize", dna, "codon.Optimize of "+clip(protein, 60)+" on "+tdesc)
 	w.Eval(len(protein) >= 2 || !encodable, mon.Hash64(tdesc, protein))
 	rep := map[string]any{"table": tdesc, "protein": protein, "weights": snap.AA}
 	if !encodable {
